@@ -26,7 +26,7 @@ def fmtDifficulty (s : DifficultyState Float Float32) : String :=
   let d := s.difficulty
   s!"hp={hex32 d.hpDrainRate} cs={hex32 d.circleSize} od={hex32 d.overallDifficulty} ar={hex32 d.approachRate} sm={hex64 d.sliderMultiplier} tr={hex64 d.sliderTickRate} har={if s.hasApproachRate then 1 else 0}"
 
-def fmtEvents (e : Events Float) : String :=
+def fmtEventsSection (e : Events Float) : String :=
   s!"bg={hexStr e.backgroundFile} br={joinWith "," (e.breaks.map fun b => hex64 b.startTime ++ ":" ++ hex64 b.endTime)}"
 
 def fmtColor (c : Color) : String := s!"{c.r}.{c.g}.{c.b}.{c.a}"
@@ -50,7 +50,7 @@ def dispatchSections (toks : List String) : Option String :=
       some s!"ok={fl} {fmtDifficulty st}"
     | "events" =>
       let (st, fl) := runLines (parseEvents (F := Float)) Events.default ls
-      some s!"ok={fl} {fmtEvents st}"
+      some s!"ok={fl} {fmtEventsSection st}"
     | "colors" =>
       let (st, fl) := runLines parseColors Colors.default ls
       some s!"ok={fl} {fmtColors st}"
